@@ -7,7 +7,7 @@
      st      - R / T / X for every helper that was started      pg - process group of every live helper
      jobs    - the parsed `jobs` listing (after a jobs action)
    A logged action is the corresponding JobControl action; the shell's own steps that the
-   driver cannot see (wait_fg_job iterations, the main loop's poll after each line, the second
+   driver cannot see (wait_fg_job iterations and its final non-blocking poll, the main loop's poll after each line, the second
    step of fg / bg) are silent steps, at most MaxSilent per logged action.  Observe requires a
    quiescent model state whose projection equals the observation; the statements of C07 are
    asserted there on the observation itself.                                       *)
@@ -91,11 +91,12 @@ SStep(A) == /\ CanSilent /\ A
             /\ silent' = silent + 1 /\ UNCHANGED <<l, phase, listing, target, pint>>
 SFgStep == SStep(\E p \in Pids : FgStep(p)) /\ ppoll' = (mode' = "prompt")
 SEchild == SStep(FgEchild) /\ ppoll' = TRUE
+SFgPoll == SStep(FgPollEmpty) /\ ppoll' = TRUE
 SResume == SStep(Resume) /\ ppoll' = (mode' = "prompt")
 SPoll   == SStep(mode = "prompt" /\ ppoll /\ TablePoll) /\ ppoll' = FALSE
 
 \* ---------------- observation at a quiescent point ----------------
-Quiescent == IF mode = "fg" THEN \A p \in Pids : ~Reportable(p) ELSE mode = "prompt" /\ ~ppoll
+Quiescent == IF mode = "fg" THEN ~fg.poll /\ \A p \in Pids : ~Reportable(p) ELSE mode = "prompt" /\ ~ppoll
 PState(p) == IF kst[p] = "running" THEN "R" ELSE IF kst[p] = "stopped" THEN "T" ELSE "X"
 Started   == {p \in Pids : kst[p] # "unborn"}
 ObsOK(o) ==
@@ -135,7 +136,7 @@ Observe == /\ l <= Len(Rec) /\ phase = "settle" /\ Quiescent
            /\ UNCHANGED <<vars, ppoll, listing, target, pint>>
 
 TNext == TLaunch \/ TCtrlZ \/ TCtrlC \/ TExt \/ TEnter \/ TJobs \/ TBuiltin
-         \/ SFgStep \/ SEchild \/ SResume \/ SPoll \/ Observe
+         \/ SFgStep \/ SEchild \/ SFgPoll \/ SResume \/ SPoll \/ Observe
 TSpec == TInit /\ [][TNext]_tvars
 
 Track == IF l > TLCGet(1) THEN TLCSet(1, l) /\ PrintT(<<"L", l>>) ELSE TRUE
